@@ -626,6 +626,12 @@ pub fn exec_op(sim: &Sim, op: &Op, in_cb: bool) {
             }
             let mut st = sim.st.borrow_mut();
             let Some(s) = st.srcs.get_mut(id) else { return };
+            if let K::Life(l) = &s.k {
+                if let Some((_, peer)) = &l.sock {
+                    os::write(peer.as_raw_fd(), &vec![3u8; (*n).max(1) as usize]);
+                }
+                return;
+            }
             let K::Generic(g) = &mut s.k else { return };
             let Some(peer) = &g.peer else { return };
             let own = g.own.0.as_raw_fd();
